@@ -5,9 +5,12 @@ import (
 	_ "github.com/saucelabs/forwarder/verifharness/c01"
 	_ "github.com/saucelabs/forwarder/verifharness/c02"
 	_ "github.com/saucelabs/forwarder/verifharness/c03"
+	_ "github.com/saucelabs/forwarder/verifharness/c07"
 	_ "github.com/saucelabs/forwarder/verifharness/c08"
+	_ "github.com/saucelabs/forwarder/verifharness/c14"
 	_ "github.com/saucelabs/forwarder/verifharness/c16"
 	_ "github.com/saucelabs/forwarder/verifharness/c17"
 	_ "github.com/saucelabs/forwarder/verifharness/c18"
+	_ "github.com/saucelabs/forwarder/verifharness/c19"
 	_ "github.com/saucelabs/forwarder/verifharness/c20"
 )
